@@ -554,7 +554,7 @@ func (fr *Frame) execAppend(st *State, in ssa.Instruction, s, more *Val, rt type
 	if isStringType(more.T) || more.K != VSlice {
 		efail("append(…, string...) not supported")
 	}
-	if _, isStruct := et.Underlying().(*types.Struct); isStruct {
+	if _, isStruct := et.Underlying().(*types.Struct); isStruct && !isOpaque(et) {
 		efail("append on struct slices not supported")
 	}
 	h := Heap{st: st, log: curLog}
